@@ -211,6 +211,15 @@ def run(ctx):
     d = CDisc(sparse, inplace)
     attach(d)
     full_cache = policy in (2, 3, 4)
+    # another discipline caching in the SAME file under another node: the two nodes never mix
+    nb = None
+    nb_seen = []
+    if policy == 4 and t.flag(0.3, "neighbour_node_in_the_same_file"):
+        from ..models import HDisc
+
+        nb = HDisc("N", ["a", "b"], ["y", "z"], {"a": 2, "b": 1, "y": 2, "z": 1}, salt=4)
+        nb.set_cache("HDF5Cache", hdf_file_path=path, hdf_node_path="neighbour")
+        ctx.probe("two_nodes_in_one_cache_file")
     stored = []  # keys of the inputs held by the cache (model), in storage order
     passed = []  # dicts of arrays handed to the discipline (the caller's buffers)
     ops = []
@@ -400,6 +409,20 @@ def run(ctx):
                 if d.n_run != n_run:
                     ctx.violate("C05.outputs_equal_uncached", sig + " pickle", "run counter changed across pickling")
                 ctx.fire("serialise_and_continue")
+            if nb is not None and t.flag(0.5, "neighbour_executes"):
+                kk = t.choice(3, "neighbour_input")
+                ninp = {"a": array([float(kk), 1.0]), "b": array([0.5 * kk])}
+                runs0 = nb.n_run
+                nout = nb.execute({n: v.copy() for n, v in ninp.items()})
+                nexp = nb.f(ninp)
+                if any(not array_equal(array(nout[o]), nexp[o]) for o in nexp):
+                    ctx.violate("C05.outputs_equal_uncached", sig + " neighbour-node", f"the discipline caching under the other node of the file returned {dict(nout)} for {ninp}, expected {nexp}; ops={ops}")
+                if (nb.n_run - runs0) != (0 if kk in nb_seen else 1):
+                    ctx.violate("C05.runs_once_per_input", sig + " neighbour-node", f"the neighbour's body ran {nb.n_run - runs0} times for input {kk} (seen before: {kk in nb_seen}); ops={ops}")
+                if kk not in nb_seen:
+                    nb_seen.append(kk)
+                if len(nb.cache) != len(nb_seen):
+                    ctx.violate("C05.entries", sig + " neighbour-node", f"the neighbour's node holds {len(nb.cache)} entries, {len(nb_seen)} inputs were stored; ops={ops}")
             # invariant: number of entries == number of distinct stored inputs
             # (exact matching only: within a tolerance a Jacobian computed for a nearby input is
             # legitimately stored as an entry of its own, and the statement does not bound entries)
